@@ -98,15 +98,19 @@ static void rnode_free(struct rnode *rnode)
 static int uc_len(char *s)
 {
 	int c = (unsigned char) s[0];
+	int n = 1, i;
 	if (~c & 0xc0)		/* ASCII or invalid */
 		return c > 0;
 	if (~c & 0x20)
-		return 2;
-	if (~c & 0x10)
-		return 3;
-	if (~c & 0x08)
-		return 4;
-	return 1;
+		n = 2;
+	else if (~c & 0x10)
+		n = 3;
+	else if (~c & 0x08)
+		n = 4;
+	for (i = 1; i < n; i++)		/* do not step over the terminator */
+		if (!s[i])
+			return i;
+	return n;
 }
 
 static int uc_dec(char *s)
